@@ -161,6 +161,43 @@ func C12(tier common.Tier) int {
 				}
 			}
 		}
+		// Moving a declaration into a file of the same package that imports nothing: the statements that need no
+		// qualifier (they reach d.T through a helper / a package-level alias declared in a.go) keep their verdicts.
+		if sh.I == 0 {
+			for _, fam := range []*e1.Family{&e1.FamIMM, &e1.FamCTOR} {
+				sites := fam.Sites()
+				for _, mix := range []e1.Mix{{Imm: true, Ctor: 1, Mut: true}, {Imm: true, Ctor: 1, Mut: true, NoOwn: true}, {Imm: true, Ctor: 2, NoOwn: true, PreludeLast: true}} {
+					for _, first := range []e1.EnclKind{-1, e1.EPlain, e1.ECtorNewT, e1.EPkgVarDirect} {
+						for _, fileOfFirst := range []int{0, 1} {
+							mk := func(file int) *e1.Spec {
+								sp := &e1.Spec{InU: true, Mix: mix, Sites: sites}
+								if first >= 0 {
+									sp.Blocks = append(sp.Blocks, e1.Block{Encl: first, File: fileOfFirst, ID: 1})
+								}
+								sp.Blocks = append(sp.Blocks, e1.Block{Encl: e1.EPlain, File: file, ID: 2})
+								return sp
+							}
+							bo, vo := e1.Observe(fam, mk(0)), e1.Observe(fam, mk(3))
+							only, onlyV := map[string]string{}, map[string]string{}
+							for k, v := range bo.BySite {
+								if strings.HasPrefix(k, "2/noimport") {
+									only[k] = v
+								}
+							}
+							for k, v := range vo.BySite {
+								if strings.HasPrefix(k, "2/noimport") {
+									onlyV[k] = v
+								}
+							}
+							if len(only) == 0 && bo.Crash == "" {
+								common.Fatalf("C12: no import-free sites in the base of family %s", fam.Name)
+							}
+							compareLayout(run, fam.Name, "into-import-free-file", fmt.Sprintf("first=%d@%d", first, fileOfFirst), "u", mix.String(), only, onlyV, bo.Crash, vo.Crash, vo.Text, "")
+						}
+					}
+				}
+			}
+		}
 		// TONL / PKGO universe
 		useSites := e1.UseSites()
 		for _, fam := range []string{"TONL", "PKGO"} {
